@@ -267,7 +267,7 @@ func (r *Run) Finish() {
 		"wall_s":      time.Since(r.start).Seconds(),
 		"violations":  unlisted,
 	}
-	if len(r.machinery) == 0 {
+	if len(r.machinery) == 0 && r.Replay == "" { // a replay re-executes one case: it is not a run of the check
 		b, _ := json.MarshalIndent(ev, "", " ")
 		os.MkdirAll(filepath.Join(Root, "evidence"), 0o755)
 		if err := os.WriteFile(filepath.Join(Root, "evidence", r.ID+".json"), append(b, '\n'), 0o644); err != nil {
